@@ -85,10 +85,13 @@ type Repo struct {
 	// (metamorphic variation of declaration / sort order).
 	NameSalt string
 	Fetches  int
+	// FailOnce, when >= 0, makes the first fetch of that project directory fail (a transient fault).
+	FailOnce int
+	failed   bool
 }
 
 func NewRepo(u *Universe) *Repo {
-	r := &Repo{U: u}
+	r := &Repo{U: u, FailOnce: -1}
 	for i, t := range u.Tags {
 		r.versions = append(r.versions, &vcs.Version{
 			Version:     module.Version{Path: u.PathOf(t), Version: t.Version},
@@ -179,6 +182,10 @@ func (r *Repo) FetchRevision(ctx context.Context, projectPath string, rev vcs.Re
 	cfg, ok := r.configAt(proj, rv.idx)
 	if !ok {
 		return errors.New("no such project at this revision")
+	}
+	if r.FailOnce == proj && !r.failed {
+		r.failed = true
+		return errors.New("injected transient fetch failure")
 	}
 	r.Fetches++
 	dir := filepath.Join(destDir, filepath.FromSlash(projectPath))
